@@ -30,6 +30,8 @@ CONSTANTS ALG,         \* declared decorator: "no" "inf" "lfu" "lru" "mru" "rr"
           DEPTH,       \* bound on the number of steps
           Deviations,
           Props,       \* properties whose clauses Refines checks
+          MAXNEST,     \* re-entrancy: how deep the wrapped function may call the decorated function again while it
+                       \* is being evaluated (0 = never; "nest" \in OPS switches the two-phase calls on)
           UNKEYAT      \* where an unkeyable argument fails in a safe decorator: "keymap" (the key cannot be built:
                        \* the wrapper evaluates and returns at once) or "lookup" (the raw key is built but is
                        \* unhashable: the dictionary lookup fails and the rest of the wrapper still runs)
@@ -68,12 +70,14 @@ VARIABLES mem,       \* the cache dict: key -> value (0 absent)
           g,         \* ghosts of layer P (recency, frequency, taint, parked)
           last,      \* the event produced by the last step (what the recorder would log)
           hist,      \* operation history (for behaviour generation)
-          n          \* number of steps taken
+          n,         \* number of events produced
+          stack      \* calls that are inside the wrapped function right now (a recursive function): sequence of
+                     \* [a |-> argument, kids |-> the calls completed inside it so far]; innermost last
 
 obs  == <<mem, archs, cur, swap, stats, queue, refc, ucnt, uord, g>>
-vars == <<mem, archs, cur, swap, stats, queue, refc, ucnt, uord, g, last, hist, n>>
-View == <<mem, archs, cur, swap, stats, queue, refc, ucnt, uord, g, n>>
-ViewNoStats == <<mem, archs, cur, swap, queue, refc, ucnt, uord, g, n>>
+vars == <<mem, archs, cur, swap, stats, queue, refc, ucnt, uord, g, last, hist, n, stack>>
+View == <<mem, archs, cur, swap, stats, queue, refc, ucnt, uord, g, n, [x \in 1..Len(stack) |-> stack[x].a]>>
+ViewNoStats == <<mem, archs, cur, swap, queue, refc, ucnt, uord, g, n, [x \in 1..Len(stack) |-> stack[x].a]>>
 
 Info(m, st) == <<st[1], st[2], st[3], EffMax, Size(m)>>
 PState == [mem |-> <<mem>>, archs |-> archs, cur |-> <<cur>>, info |-> <<Info(mem, stats)>>, g |-> <<g>>]
@@ -96,6 +100,7 @@ Init ==
   /\ last = [op |-> "init"]
   /\ hist = <<>>
   /\ n = 0
+  /\ stack = <<>>
 
 -----------------------------------------------------------------------------
 (* bookkeeping helpers *)
@@ -144,10 +149,22 @@ Event(op, extra) ==
   [op |-> op, i |-> 1, mem |-> <<mem'>>, archs |-> archs', cur |-> <<cur'>>,
    info |-> <<Info(mem', stats')>>] @@ extra
 
-Finish(e) == /\ last' = e
-             /\ g' = GhostAfter(Cfg, PState, e)[1]
-             /\ hist' = Append(hist, [x \in (DOMAIN e) \cap {"op", "a", "keys", "keep", "x"} |-> e[x]])
-             /\ n' = n + 1
+\* The operation record of an event goes to the history - or, while a call is inside the wrapped function, to the
+\* record of that enclosing call ("nest").  The event that completes the innermost pending call closes its frame.
+Rec(e) == [x \in (DOMAIN e) \cap {"op", "a", "keys", "keep", "x"} |-> e[x]]
+Finish(e) ==
+  /\ last' = e
+  /\ g' = GhostAfter(Cfg, PState, e)[1]
+  /\ n' = n + 1
+  /\ IF stack = <<>> THEN hist' = Append(hist, Rec(e)) /\ stack' = stack
+     ELSE LET d   == Len(stack)
+              top == stack[d]
+          IN IF e.op = "call" /\ e.a = top.a            \* the pending call itself returns
+             THEN LET r == Rec(e) @@ [nest |-> top.kids]
+                  IN IF d = 1 THEN hist' = Append(hist, r) /\ stack' = <<>>
+                     ELSE /\ hist' = hist
+                          /\ stack' = [SubSeq(stack, 1, d - 1) EXCEPT ![d - 1].kids = Append(@, r)]
+             ELSE hist' = hist /\ stack' = [stack EXCEPT ![d].kids = Append(@, Rec(e))]
 
 NoExtra == [x \in {} |-> 0]
 Ret(a, ret, exc, ev) == [a |-> a, ret |-> ret, exc |-> exc, ev |-> ev]
@@ -275,8 +292,25 @@ CallUnkey(a) ==  \* safe decorators: arguments that cannot be keyed -> plain eva
           /\ UNCHANGED <<cur, swap, queue, refc, ucnt, uord>>
           /\ Finish(Event("call", Ret(a, FOf[a], "none", <<a>>)))
 
-Call(a) == IF KindOf[a] = "unkey" THEN CallUnkey(a)
-           ELSE IF EffAlg = "no" THEN CallNo(a) ELSE CallBounded(a)
+CallNow(a) == IF KindOf[a] = "unkey" THEN CallUnkey(a)
+              ELSE IF EffAlg = "no" THEN CallNo(a) ELSE CallBounded(a)
+
+(* Re-entrancy.  The wrapper looks the key up, and only when it is neither resident nor archived does it run the  *)
+(* wrapped function - which may call the decorated function again (a memoized recursive function) - before any    *)
+(* bookkeeping: nothing is recorded until the function returns.  Enter(a) is that first phase (no event, no       *)
+(* change); the second phase is CallNow(a) taken when a is the innermost pending call: the lookup parts of        *)
+(* CallNow find exactly what Enter found (no pending call shares a key, so nothing can have stored it meanwhile). *)
+Nesting  == "nest" \in OPS /\ MAXNEST > 0
+WouldRun(a) == KindOf[a] # "unkey" /\ mem[KeyOf[a]] = 0 /\ ~(Archived(cur) /\ Arch(cur)[KeyOf[a]] # 0)
+Pending  == {KeyOf[stack[x].a] : x \in 1..Len(stack)}
+Enter(a) == /\ Nesting /\ WouldRun(a) /\ KeyOf[a] \notin Pending
+            /\ Len(stack) < MAXNEST /\ n + Len(stack) + 1 < DEPTH
+            /\ stack' = Append(stack, [a |-> a, kids |-> <<>>])
+            /\ UNCHANGED <<mem, archs, cur, swap, stats, queue, refc, ucnt, uord, g, last, hist, n>>
+Return   == stack # <<>> /\ CallNow(stack[Len(stack)].a)
+Call(a)  == IF Nesting /\ WouldRun(a)
+            THEN Enter(a)
+            ELSE KeyOf[a] \notin Pending /\ CallNow(a)       \* answered without running the function (or nesting is off)
 
 -----------------------------------------------------------------------------
 (* management operations: klepto.archives.cache methods re-exported on the wrapper *)
@@ -342,9 +376,7 @@ InfoQ ==
 
 KeySeqs == {<<1>>, <<2>>, <<1, 2>>, <<2, 3>>}
 
-Next ==
-  /\ n < DEPTH
-  /\ \/ "call" \in OPS /\ \E a \in ARGS : Call(a)
+NextMgmt ==
      \/ "load" \in OPS /\ Load
      \/ "loadk" \in OPS /\ \E ks \in KeySeqs : LoadK(ks)
      \/ "dump" \in OPS /\ Dump
@@ -357,11 +389,17 @@ Next ==
      \/ "key" \in OPS /\ \E a \in ARGS : KindOf[a] # "unkey" /\ KeyQ(a)
      \/ "info" \in OPS /\ InfoQ
 
+Next ==
+  /\ n < DEPTH
+  /\ \/ "call" \in OPS /\ \E a \in ARGS : Call(a)
+     \/ Return
+     \/ stack = <<>> /\ NextMgmt      \* management operations are not issued from inside the wrapped function
+
 Spec == Init /\ [][Next]_vars
 
 -----------------------------------------------------------------------------
 (* Refinement obligation: every step of layer I satisfies every selected clause of layer P *)
-StepOK == Failed(Props, Cfg, PState, last') = {}
+StepOK == n' > n => Failed(Props, Cfg, PState, last') = {}      \* (Enter produces no event)
 Refines == [][StepOK]_vars
 
 (* structural invariants of the mechanism (layer I only) *)
